@@ -130,10 +130,20 @@ func setupLSQ(reacqWorkaround bool) setupFunc {
 				return nil
 			}),
 			localstatequery.WithQueryFunc(func(_ localstatequery.CallbackContext, q localstatequery.QueryWrapper) (any, error) {
-				switch q.Query.(type) {
+				switch bq := q.Query.(type) {
 				case *localstatequery.BlockQuery:
-					return 10*n + 1, nil
+					switch sq := bq.Query.(type) {
+					case *localstatequery.HardForkQuery:
+						// current era: depends on the acquired point
+						rt.Log("srv query era n=%d", n)
+						return 10*n + 1, nil
+					case *localstatequery.ShelleyQuery:
+						// era-dependent query (epoch number): the answer names the era the query was built for
+						rt.Log("srv query epoch era=%d n=%d", sq.Era, n)
+						return []int{1000*int(sq.Era) + n}, nil
+					}
 				case *localstatequery.ChainBlockNoQuery:
+					rt.Log("srv query blockno n=%d", n)
 					return []int64{1, int64(10*n + 2)}, nil
 				}
 				return nil, fmt.Errorf("unexpected query %T", q.Query)
@@ -172,6 +182,12 @@ func setupLSQ(reacqWorkaround bool) setupFunc {
 					return errStr(err)
 				}
 				return fmt.Sprintf("qb=%d", v)
+			case "qe":
+				v, err := client.GetEpochNo()
+				if err != nil {
+					return errStr(err)
+				}
+				return fmt.Sprintf("qe=%d", v)
 			}
 			panic(op)
 		}
@@ -362,6 +378,10 @@ func (m *model) expected(op string) string {
 		case "qb":
 			autoAcquire()
 			return fmt.Sprintf("qb=%d", 10*m.n+2)
+		case "qe":
+			// era-dependent: built for the era of the currently acquired point (10n+1), answered in acquisition n
+			autoAcquire()
+			return fmt.Sprintf("qe=%d", 1000*(10*m.n+1)+m.n)
 		}
 	case "txmon":
 		switch op {
@@ -892,6 +912,25 @@ func TestC25(t *testing.T) {
 				pair("txmon", "hasx", "next"), pair("txmon", "next", "sizes"),
 			}, 1, 2, 12*time.Minute)
 		}
+		// local-state-query history family: acquire / query / re-acquire / query / release / acquire / query,
+		// the era (and every tag) changing with the acquired point; qe = an era-dependent query (GetEpochNo)
+		hist := func(reacq bool, seqs ...string) params {
+			p := params{proto: "lsq", reacq: reacq}
+			for _, s := range seqs {
+				p.seqs = append(p.seqs, strings.Split(s, ","))
+			}
+			return p
+		}
+		add([]params{
+			hist(true, "acq,qa,acq,qa"),
+			hist(true, "acq,qe,acq,qe"),
+			hist(false, "acq,qa,rel,acq,qa"),
+			hist(false, "qe,rel,qe"),
+			hist(true, "acq,qa,acq,qa,rel,acq,qa"),
+			hist(true, "acq,qe,acq,qb,rel,acq,qe"),
+			hist(true, "acq,qa", "acq,qa"),
+			hist(true, "acq,qe", "acq,qe"),
+		}, 1, 1, 5*time.Minute)
 		for _, proto := range []string{"lsq", "txmon", "txsub", "peers"} {
 			// two callers x one call each; one caller x two successive calls: <=1 deviation
 			add(withReacq(shapes(proto, false, 1, 1)), 1, 1, 5*time.Minute)
